@@ -13,20 +13,24 @@ import (
 
 // Profile tunes the history generator of C03 / C02.
 type Profile struct {
-	Name       string
-	Len        int
-	FaultPct   int     // % of filter / bind / deliver / resync ops with an injected apiserver fault
-	SettlePct  int     // % chance per op to start a "settle" macro: handle all events, sync, fault-free resync
-	DropPct    int     // % of pending events that get lost instead of delivered (inside a settle macro)
-	DelayPct   int     // % of events marked "delayed" (delivered late)
-	Recreate   float64 // weight of re-creating a vanished identity (C02: high)
-	PolicyFlip bool    // a re-created pod may carry another release policy than its predecessor (never <-> immutable)
-	Provider   int     // % of histories with the cloud provider
-	ScaleW     float64 // weight of scale / delete-app moves
+	Name        string
+	Len         int
+	FaultPct    int     // % of filter / bind / deliver / resync ops with an injected apiserver fault
+	SettlePct   int     // % chance per op to start a "settle" macro: handle all events, sync, fault-free resync
+	DropPct     int     // % of pending events that get lost instead of delivered (inside a settle macro)
+	DelayPct    int     // % of events marked "delayed" (delivered late)
+	Recreate    float64 // weight of re-creating a vanished identity (C02: high)
+	PolicyFlip  bool    // a re-created pod may carry another release policy than its predecessor (never <-> immutable)
+	Provider    int     // % of histories with the cloud provider
+	ScaleW      float64 // weight of scale / delete-app moves
+	DirectBind  float64 // weight of a bind that was not preceded by a filter of the same pod
+	FilterFault int     // % of filters of a deployment / pool pod that finds reserved addresses which carry a store fault
+	TwoSubnets  bool    // force topologies with at least two node subnets and nodes in both
 }
 
 func ProfileC03() Profile {
-	return Profile{Name: "c03-mix", Len: 60, FaultPct: 8, SettlePct: 9, DropPct: 30, DelayPct: 30, Recreate: 4, Provider: 25, ScaleW: 2.2}
+	return Profile{Name: "c03-mix", Len: 60, FaultPct: 8, SettlePct: 9, DropPct: 30, DelayPct: 30, Recreate: 4, Provider: 25, ScaleW: 2.2,
+		DirectBind: 0.5}
 }
 
 type ident struct {
@@ -107,9 +111,21 @@ func GenConf3(rng *rand.Rand, p Profile) plugin.Conf {
 				n += int(r[1]-r[0]) + 1
 			}
 		}
-		if n >= 3 {
-			return c
+		if n < 3 {
+			continue
 		}
+		if p.TwoSubnets {
+			subs := map[plugin.Subnet]bool{}
+			for _, pl := range c.Pools {
+				for _, sn := range pl.NodeSubnets {
+					subs[sn] = true
+				}
+			}
+			if len(subs) < 2 {
+				continue
+			}
+		}
+		return c
 	}
 }
 
@@ -244,11 +260,18 @@ func (g *Gen3) Next(w *plugin.World, step int) string {
 					names = append(names, n.Name)
 				}
 				f, _ := g.fault(w, 3)
+				if g.p.FilterFault > 0 && id.kind == "dp" && rng.Intn(100) < g.p.FilterFault && singleKeys(w) {
+					f = 1 + rng.Intn(2) // the get / update of AllocateInSubnetWithKey
+				}
 				g.intent = key
 				return fmt.Sprintf("filter %s %s %s ? ? %d", id.ns, id.name, strings.Join(names, ","), f)
 			})
 			// a scheduler that binds without (or despite) filter: how unsupported policies get an address at all
-			add(0.5, func() string { return g.bindLine(w, id.ns, id.name, g.conf.Nodes[rng.Intn(len(g.conf.Nodes))].Name) })
+			if g.p.DirectBind > 0 {
+				add(g.p.DirectBind, func() string {
+					return g.bindLine(w, id.ns, id.name, g.conf.Nodes[rng.Intn(len(g.conf.Nodes))].Name)
+				})
+			}
 		}
 		if bound && p.Status.Phase != corev1.PodRunning && !plugin.Finished(p) {
 			add(1, func() string { g.needSync = true; return fmt.Sprintf("pod run %s %s", id.ns, id.name) })
